@@ -57,6 +57,7 @@ type Spec struct {
 	ModuleDir  string            `json:"module_dir"`
 	Package    string            `json:"package"`
 	Overlay    map[string]string `json:"overlay"`
+	Rewrites   []SourceRewrite   `json:"source_rewrites"`
 	Harnesses  []HarnessSpec     `json:"harnesses"`
 	Units      []Unit            `json:"units"`
 	InitExtra  []string          `json:"init_extra"`
@@ -236,6 +237,7 @@ type runner struct {
 	loadTotal float64
 	validated int
 	validationNotes []string
+	rewriteDir string
 }
 
 // Unit is one Go package under test with its overlay files and harness functions.
@@ -244,6 +246,18 @@ type Unit struct {
 	Package   string            `json:"package"`
 	Overlay   map[string]string `json:"overlay"`
 	Harnesses []HarnessSpec     `json:"harnesses"`
+	Rewrites  []SourceRewrite   `json:"source_rewrites"`
+}
+
+// SourceRewrite replaces one expression in a repository source file for the executor and for the
+// native runs alike (e.g. the construction of a network client by a call into the harness). The
+// rewritten file is derived from /repo's current source on every run and injected as an overlay;
+// the text must occur exactly Count times (default 1), otherwise the run is inconclusive.
+type SourceRewrite struct {
+	File  string `json:"file"` // relative to the module directory
+	From  string `json:"from"`
+	To    string `json:"to"`
+	Count int    `json:"count"`
 }
 
 func (r *runner) loadKnown() {
@@ -290,6 +304,39 @@ func (r *runner) overlayFiles(native bool) (map[string]string, error) {
 	for dst, src := range r.spec.Overlay {
 		ov[filepath.Join(r.pkgDir, dst)] = filepath.Join(r.hdir, src)
 	}
+	for i, rw := range r.spec.Rewrites {
+		orig := filepath.Join(r.modDir, rw.File)
+		b, err := os.ReadFile(orig)
+		if err != nil {
+			return nil, err
+		}
+		want := rw.Count
+		if want == 0 {
+			want = 1
+		}
+		if n := strings.Count(string(b), rw.From); n != want {
+			return nil, fmt.Errorf("source rewrite %d: %q occurs %d times in %s, expected %d", i, rw.From, n, rw.File, want)
+		}
+		if r.rewriteDir == "" {
+			r.rewriteDir, err = os.MkdirTemp("", "gosym-rw-")
+			if err != nil {
+				return nil, err
+			}
+		}
+		// several rewrites of one file apply in order
+		src := orig
+		if prev, ok := ov[orig]; ok {
+			src = prev
+			if b, err = os.ReadFile(src); err != nil {
+				return nil, err
+			}
+		}
+		out := filepath.Join(r.rewriteDir, fmt.Sprintf("%d_%s", i, filepath.Base(rw.File)))
+		if err := os.WriteFile(out, []byte(strings.ReplaceAll(string(b), rw.From, rw.To)), 0o644); err != nil {
+			return nil, err
+		}
+		ov[orig] = out
+	}
 	return ov, nil
 }
 
@@ -320,7 +367,10 @@ func (r *runner) load() error {
 		return err
 	}
 	overlay := map[string][]byte{}
-	ov, _ := r.overlayFiles(false)
+	ov, oerr := r.overlayFiles(false)
+	if oerr != nil {
+		return oerr
+	}
 	ov[filepath.Join(r.pkgDir, "zz_vsym_rt.go")] = rtPath
 	for dst, src := range ov {
 		b, err := os.ReadFile(src)
@@ -521,13 +571,14 @@ func (r *runner) instancesOf(h *HarnessSpec) []*instance {
 func (r *runner) run() int {
 	units := r.spec.Units
 	if len(units) == 0 {
-		units = []Unit{{ModuleDir: r.spec.ModuleDir, Package: r.spec.Package, Overlay: r.spec.Overlay, Harnesses: r.spec.Harnesses}}
+		units = []Unit{{ModuleDir: r.spec.ModuleDir, Package: r.spec.Package, Overlay: r.spec.Overlay, Harnesses: r.spec.Harnesses, Rewrites: r.spec.Rewrites}}
 	}
 	for _, u := range units {
 		if u.ModuleDir == "" {
 			u.ModuleDir = "."
 		}
 		r.spec.ModuleDir, r.spec.Package, r.spec.Overlay, r.spec.Harnesses = u.ModuleDir, u.Package, u.Overlay, u.Harnesses
+		r.spec.Rewrites = u.Rewrites
 		r.modDir = filepath.Join(repoDir, u.ModuleDir)
 		r.pkgDir = filepath.Join(r.modDir, u.Package)
 		r.prog, r.hpkg = nil, nil
@@ -542,6 +593,10 @@ func (r *runner) run() int {
 			}
 		}
 		r.loadTotal += r.loadSecs
+		if r.rewriteDir != "" {
+			os.RemoveAll(r.rewriteDir)
+			r.rewriteDir = ""
+		}
 		if r.scratch != "" {
 			os.RemoveAll(r.scratch)
 			r.scratch = ""
